@@ -89,8 +89,12 @@ def run_mc(tag, module, cfg, workers=16, timeout=1200, simulate=None, seed=None,
         args += ["-seed", str(seed)]
     args.append(module + ".tla")
     outfile = os.path.join(OUT, tag, "tlc.out")
-    rc, _none, wall = _java(args, timeout=timeout, heap=heap, to_file=outfile)
-    shutil.rmtree(meta, ignore_errors=True)
+    for attempt in (1, 2, 3):
+        rc, _none, wall = _java(args, timeout=timeout, heap=heap, to_file=outfile)
+        shutil.rmtree(meta, ignore_errors=True)
+        if rc in (0, 12, 13) or not _was_killed(outfile) or attempt == 3:
+            break
+        time.sleep(20 * attempt)      # killed from outside (memory pressure): wait and run it again
     res = {"rc": rc, "wall_s": round(wall, 2), "generated": 0, "distinct": 0,
            "errors": [], "tr": [], "complete": False, "raw_tail": "", "tr_total": 0}
     # TR lines beyond MAXTR are reservoir-sampled (seeded): a bounded, reproducible subset
@@ -139,6 +143,24 @@ def run_mc(tag, module, cfg, workers=16, timeout=1200, simulate=None, seed=None,
     return res
 
 
+def _mem_available_gb():
+    try:
+        for line in open("/proc/meminfo"):
+            if line.startswith("MemAvailable:"):
+                return int(line.split()[1]) // (1024 * 1024)
+    except OSError:
+        pass
+    return 64
+
+
+def _was_killed(logpath):
+    try:
+        log = open(logpath, encoding="utf-8", errors="replace").read()
+    except OSError:
+        return True
+    return "Model checking completed" not in log and "Error:" not in log
+
+
 def run_trace_shards(tag, shard_files, timeout=1800, heap="3g", par=16):
     """Run Trace.tla once per shard file (separate single-worker JVMs, `par` at
     a time).  Returns (fails, dones, walls): FAIL and DONE lines parsed."""
@@ -150,6 +172,9 @@ def run_trace_shards(tag, shard_files, timeout=1800, heap="3g", par=16):
     pending = list(enumerate(shard_files))
     running = []
     t0 = time.time()
+    # as many JVMs at a time as the free memory allows (each may grow to its heap limit)
+    par = max(2, min(par, _mem_available_gb() // 4))
+    retried = set()
 
     def launch(i, f):
         meta = os.path.join(OUT, tag, "tmeta%d" % i)
@@ -178,7 +203,13 @@ def run_trace_shards(tag, shard_files, timeout=1800, heap="3g", par=16):
             else:
                 logf.close()
                 shutil.rmtree(meta, ignore_errors=True)
-                results.append((i, p.returncode))
+                if p.returncode not in (0, 12, 13) and i not in retried and _was_killed(os.path.join(OUT, tag, "trace%d.log" % i)):
+                    # the JVM was killed from outside (memory pressure): once more, later, with fewer neighbours
+                    retried.add(i)
+                    par = max(1, par // 2)
+                    pending.append((i, f))
+                else:
+                    results.append((i, p.returncode))
         running = still
     fails, dones = [], []
     for i, rc in results:
